@@ -123,8 +123,9 @@ def locate (N : Nat) (x : Nat → Rat) (st : LState) (v : Rat) : Except Err (Nat
     if v < d0 ∨ v > d1 then
       let tl := C01.K.edgeTolL * (x 1 - x 0)
       let tr := C01.K.edgeTolR * (x (N - 1) - x (N - 2))
-      if rabs (v - d0) < tl then .ok 0
-      else if rabs (v - d1) < tr then .ok (N - 2)
+      -- `<=` since fix a411065: exactly one percent outside is still accepted
+      if rabs (v - d0) ≤ tl then .ok 0
+      else if rabs (v - d1) ≤ tr then .ok (N - 2)
       else .error .diag
     else
       let j := if st.corr then hunt N x v st.jLast else bisection x v 0 (N - 1)
@@ -229,25 +230,53 @@ def listMax (l : List Rat) (d : Rat) : Rat := l.foldl rmax (l.headD d)
 def Obj.knotValues (o : Obj) (first last : Nat) : List Rat :=
   (List.range (last + 1 - first)).map (fun k => o.y (first + k))
 
-/-- `Local_Minimum(x_1,x_2)` (`isMax = false`) / `Local_Maximum` (`isMax = true`).
-    The candidate knots are `i1+1 … i2`, plus knot `i1 = 0` when `x_1` lies below the domain and
-    knot `i2+1 = N-1` when `x_2` lies above it, provided the knot lies between the limits
-    (fixes ede24b1, fb75aa9). -/
-def Obj.localExt (o : Obj) (isMax : Bool) (v1 v2 : Rat) : Except Err (Rat × Obj) := do
+/-- the square root of libm used by `Stationary_Values`: a parameter of the model (never an axiom);
+    theorems state what they need of it at the discriminant actually passed -/
+class SqrtFn where
+  sq : Rat → Rat
+
+/-- the roots of `A t² + B t + C` as `Stationary_Values` forms them (fix 51ca844): `-C/B` for `A = 0`,
+    otherwise with `q = -(B + sign(B)·√disc)/2` the pair `q/A`, `C/q` (the second only for `q ≠ 0`) -/
+def statRoots [SqrtFn] (A B C : Rat) : List Rat :=
+  if A = 0 then (if B ≠ 0 then [-C / B] else [])
+  else
+    let disc := B * B - 4 * A * C
+    if disc ≥ 0 then
+      let q := -(1 / 2 : Rat) * (B + (if B ≥ 0 then 1 else -1) * SqrtFn.sq disc)
+      (q / A) :: (if q ≠ 0 then [C / q] else [])
+    else []
+
+/-- `Stationary_Values(j, x_low, x_high)`: the curve at the stationary points of piece `j` strictly inside `(x_low, x_high)` -/
+def Obj.stationaryValues [SqrtFn] (o : Obj) (j : Nat) (lo hi : Rat) : List Rat :=
+  ((statRoots (3 * coefA o.N o.x o.y j) (2 * coefB o.N o.x o.y j) (coefC o.N o.x o.y j)).filter
+      (fun t => decide (o.x j + t > lo ∧ o.x j + t < hi))).map
+    (fun t => o.pref * segEval (coefA o.N o.x o.y j) (coefB o.N o.x o.y j) (coefC o.N o.x o.y j) (coefD o.y j) t)
+
+/-- the value `Local_Minimum` / `Local_Maximum` forms from the two end values `fl`, `fr` and the indices of the limits:
+    the candidate knots are `i1+1 … i2`, plus knot `i1 = 0` when `x_1` lies below the domain and knot `i2+1 = N-1`
+    when `x_2` lies above it, provided the knot lies between the limits (fixes ede24b1, fb75aa9); for a limit in the
+    extrapolation zone also the stationary values of the continued edge cubic between the limit and the end knot (51ca844) -/
+def Obj.extValue [SqrtFn] (o : Obj) (isMax : Bool) (v1 v2 fl fr : Rat) (i1 i2 : Nat) : Rat :=
+  let pick := if isMax then rmax else rmin
+  let first := if v1 < o.x 0 ∧ v2 ≥ o.x 0 then i1 else i1 + 1
+  let last := if v2 > o.x (o.N - 1) ∧ v1 ≤ o.x (o.N - 1) then i2 + 1 else i2
+  let r0 := pick fl fr
+  let r1 :=
+    if first ≤ last then
+      let ks := o.knotValues first last
+      pick (pick r0 (o.pref * listMin ks 0)) (o.pref * listMax ks 0)
+    else r0
+  let r2 := if v1 < o.x 0 then (o.stationaryValues 0 v1 (rmin v2 (o.x 0))).foldl pick r1 else r1
+  if v2 > o.x (o.N - 1) then (o.stationaryValues (o.N - 2) (rmax v1 (o.x (o.N - 1))) v2).foldl pick r2 else r2
+
+/-- `Local_Minimum(x_1,x_2)` (`isMax = false`) / `Local_Maximum` (`isMax = true`) -/
+def Obj.localExt [SqrtFn] (o : Obj) (isMax : Bool) (v1 v2 : Rat) : Except Err (Rat × Obj) := do
   if v2 < v1 then throw .diag
   let (fl, oa) ← o.interpolate v1
   let (fr, ob) ← oa.interpolate v2
   let (i1, oc) ← ob.locate v1
   let (i2, od) ← oc.locate v2
-  let pick := if isMax then rmax else rmin
-  let first := if v1 < o.x 0 ∧ v2 ≥ o.x 0 then i1 else i1 + 1
-  let last := if v2 > o.x (o.N - 1) ∧ v1 ≤ o.x (o.N - 1) then i2 + 1 else i2
-  if first > last then pure (pick fl fr, od)
-  else
-    let ks := o.knotValues first last
-    let mn := o.pref * listMin ks 0
-    let mx := o.pref * listMax ks 0
-    pure (pick (pick (pick fl mn) mx) fr, od)
+  pure (o.extValue isMax v1 v2 fl fr i1 i2, od)
 
 def Obj.globalExt (o : Obj) (isMax : Bool) : Rat :=
   let mn := o.pref * listMin o.ys.toList 0
